@@ -9,6 +9,7 @@ Ports are bound with port 0 once per process (fork-safe: create peers in `Family
 
 Steps (lists, JSON-friendly):
   ["read_line", timeout]        read application bytes until CRLF, EOF or timeout
+  ["call", fn]                  call fn() (a hook of the harness, same process)
   ["read_request", timeout]     read one whole request: the line and, for titan://…;size=N, N content bytes
   ["read_n", n, timeout]        read until n application bytes have arrived in total
   ["read_eof", timeout]         read until EOF (close_notify / FIN), error or timeout
@@ -294,6 +295,8 @@ class TLSPeer:
                         want = len(line) + 2 + (int(m.group(1)) if m else 0)
                         while len(buf) < want and time.monotonic() < end and recv_some(end - time.monotonic()):
                             pass
+                elif op == "call":
+                    step[1]()                      # a hook of the harness (same process), e.g. to take a lock at this point of the exchange
                 elif op == "read_n":
                     end = time.monotonic() + step[2]
                     while len(buf) < step[1] and time.monotonic() < end and recv_some(end - time.monotonic()):
